@@ -39,7 +39,10 @@ TRUSTED_BASE = [
 ASSUMPTIONS = ["message length >= 1 (length 0 is the wrap marker's encoding); one reader; writers serialised by the write lock; "
                "w_move directly follows the successful w_alloc_bytes of that message; r_move follows a successful r_fetch; "
                "n_cacheline < 2^31"]
-EVIDENCE_NOTES = []
+EVIDENCE_NOTES = [
+    "sequential theorems proved in full (shm_seq_refines_fifo, shm_alloc_no_overlap, shm_indices_in_range, shm_drained_accepts_partial with the exact iff, shm_drained_half_refuted); the property's clause 'a drained ring accepts up to half its size' is REFUTED (known finding drained-half)",
+    "concurrent layer: shm_conc_inv_reachable and shm_crash_safe are NOT proved for all interleavings; proved are the memory-order side condition against the re-extracted orders, the reader-step frame lemma (shm_conc_inv_reachable_partial) and the frame half of crash safety for every state (shm_crash_safe_partial), plus concrete executions (non-vacuity, necessity of the release store, writer killed inside the wrap).  Gap: the reachable-state invariant (A.7 with stale cursors and views) over the writer's program points.  Coverage of the gap on every run: every scheduler trace of the real code (1 reader + 1 writer, 2-3 locked writers, writer killed after each atomic operation) must be accepted step by step by the extracted model, whose ghost monitors (uncovered read under the code's orders, overlap, delivered prefix of committed) must stay quiet, and the independent trace monitor checks FIFO / whole messages / no pending message missed",
+]
 
 
 def need_of(nb):
@@ -194,6 +197,11 @@ def corpus_cases(ctx):
                    ["alloc 10", "write 0 10 1", "alloc 200", "write 0 200 2", "alloc 5000", "commit", "commit", "fetch", "fetch", "rmove", "rmove", "fetch"]))
     cs.append(_seq("corpus-shm-smoke", "shm", 16 * CL,
                    _send(100, 3) + _send(1, 4) + ["fetch", "rmove", "fetch", "rmove", "fetch"] + _send(300, 5) + ["fetch", "rmove"]))
+    d = os.path.join(V.VERIF, "corpus", ID)
+    if os.path.isdir(d):
+        for f in sorted(os.listdir(d)):
+            if f.endswith(".case"):
+                cs.append(V.Case.load(os.path.join(d, f)))
     cs.append(_seq("corpus-shm-round-up", "shm", 5 * CL + 1, _send(40, 1) + ["fetch", "rmove"] + _send(56, 2) + ["fetch", "rmove", "fetch"]))
     return cs
 
@@ -430,11 +438,9 @@ def _mon_seq(case, lines):
                             KNOWN_PREFIX, p, n, nb, need, room, k)
                 continue
             off = int(rw[1])
-            if off % CL != HDR or off < HDR or off - HDR + need * CL > data + 0 or off + nb > data:
+            if off % CL != HDR or off < HDR or off - HDR + need * CL > data or off + nb > data:
                 return "op %d: allocation at offset %d (+%d bytes, %d lines) is outside / misaligned in the %d-byte data area" % (k, off, nb, need, data)
             line = (off - HDR) // CL
-            if line + need > n - 1 + 0 and line + need > n:
-                return "op %d: allocation [%d,%d) leaves the ring of %d lines" % (k, line, line + need, n)
             if line == 0 and w_mon != 0:
                 gen += 1
                 marker = (w_mon, gen)
@@ -498,14 +504,7 @@ def _mon_seq(case, lines):
         # cursors reported by the implementation must stay inside the ring
         if st is not None and (st[0] > n - 1 or st[1] > n - 1):
             return "op %d: cursor out of range (write %d, read %d, ring of %d lines)" % (k, st[0], st[1], n)
-        # drained positions implied by offsets: after a wrap the reader's position is the marker
-        if not q and not fetched and pend is None and marker is not None:
-            pass
     return known
-
-
-def _drained_pos_fix(w_mon, r_mon, marker):
-    return w_mon == r_mon
 
 
 def monitor(case, lines):
@@ -558,13 +557,206 @@ def tally(dist, case, lines):
 
 
 # ---------------------------------------------------------------------------
-# concurrent part (filled in below)
+# concurrent part
+
+def _conc(name, n, locked, kill, tries, scripts, sched):
+    lines = ["conc %d %d %d %d" % (n, locked, kill, tries)]
+    for sc in scripts:
+        lines.append("writer " + " ".join("%d:%d" % m for m in sc))
+    lines.append("sched " + sched)
+    return V.Case(name, lines, {"kind": "conc"})
+
+
+def _conc_script(rng, n, k, tagbase):
+    half = (CL // 2) * n
+    out = []
+    for i in range(k):
+        x = rng.below(10)
+        if x < 5:
+            nb = rng.range(1, 56)
+        elif x < 8:
+            nb = rng.choice([56, 57, 120, 121, 184, CL * (n // 2 - 3) - HDR if n >= 8 else 1, CL * (n // 2 - 2) - HDR])
+        else:
+            nb = rng.range(1, half)
+        out.append((max(1, nb), (tagbase + i) % 256))
+    return out
+
 
 def _conc_cases(rng, tier):
-    return []
+    cases = []
+    k1 = 140 if tier == "quick" else 3000
+    for i in range(k1):
+        n = rng.choice([8, 8, 16, 16, 32, 64])
+        sc = _conc_script(rng, n, rng.range(2, 8), rng.below(200))
+        cases.append(_conc("c1w-%d" % i, n, 0, -1, rng.choice([1, 2, 3, 6]), [sc],
+                           "rand %d %d 0 0" % (rng.below(1 << 30), rng.choice([20, 50, 80]))))
+    # writer killed right after each of its visible operations (same scenario and schedule, k = 0..K)
+    for i in range(5 if tier == "quick" else 60):
+        n = rng.choice([8, 16, 16, 32])
+        sc = _conc_script(rng, n, rng.range(3, 6), rng.below(200))
+        seed, stick, tries = rng.below(1 << 30), rng.choice([20, 50, 80]), rng.choice([1, 2, 4])
+        for k in range(0, 4 * len(sc) * tries + 2):
+            cases.append(_conc("ckill-%d-%d" % (i, k), n, 0, k, tries, [sc], "rand %d %d 0 0" % (seed, stick)))
+    k2 = 90 if tier == "quick" else 2000
+    for i in range(k2):
+        n = rng.choice([8, 16, 16, 32, 64])
+        nw = rng.choice([2, 2, 3])
+        scs = [_conc_script(rng, n, rng.range(1, 5), 60 * w + rng.below(20)) for w in range(nw)]
+        cases.append(_conc("clk-%d" % i, n, 1, -1, rng.choice([1, 2, 4]), scs,
+                           "rand %d %d 0 0" % (rng.below(1 << 30), rng.choice([20, 50, 80]))))
+    return cases
+
+
+def _code_orders():
+    try:
+        txt = open(os.path.join(V.COQ, "gen", "Params_C08.v")).read()
+    except OSError:
+        return None
+    vals = []
+    for field, _, _, _ in SITES:
+        m = re.search(r"%s := (\w+)" % field, txt)
+        vals.append(m.group(1) if m else "MoNone")
+    return vals
+
+
+def model_cases(cases, impl_results):
+    """concurrent cases: the model replays the implementation's trace under the memory orders extracted
+    from the code on this run, so that its ghost monitor for uncovered plain reads is meaningful."""
+    out = []
+    vals = _code_orders()
+    for c in cases:
+        if c.lines and c.lines[0].startswith("conc"):
+            r = impl_results.get(c.name)
+            extra = ["params " + " ".join(vals)] if vals else []
+            out.append(V.Case(c.name, list(c.lines) + extra + ["TRACE"] + (list(r["lines"]) if r else []), c.meta))
+        else:
+            out.append(c)
+    return out
+
+
+def model_search(ctx):
+    """A memory-order obligation broke: x86 under a serialised run cannot show the effect; look for a
+    history of the MODEL, under the orders extracted from the code, in which the reader reads a line its
+    view does not cover."""
+    p = os.path.join(V.COQ, "gen", "Params_C08.v")
+    txt = open(p).read()
+    vals = []
+    for field, _, _, _ in SITES:
+        m = re.search(r"%s := (\w+)" % field, txt)
+        vals.append(m.group(1) if m else "MoNone")
+    cases = []
+    scen = [["conc 8 0 -1 3", "writer 1:1 1:2 1:3 1:4 1:5"],
+            ["conc 16 1 -1 3", "writer 1:1 60:2 1:3", "writer 100:4 1:5"],
+            ["conc 8 0 -1 3", "writer 100:1 1:2 1:3 100:4"]]
+    for i, sc in enumerate(scen):
+        cases.append(V.Case("modelsearch-%d" % i, sc + ["params " + " ".join(vals), "explore %d 4000" % (ctx.seed + i)]))
+    res = ctx.run_model(cases)
+    for c in cases:
+        r = res.get(c.name)
+        if r and r["lines"] and r["lines"][0].startswith("FOUND"):
+            return (V.Case(c.name, list(c.lines) + r["lines"]),
+                    "model history (memory orders as extracted from the code: %s): %s" % (" ".join(vals), r["lines"][0][6:]))
+    return None
 
 
 def _mon_conc(case, lines):
+    """independent monitor on the scheduler trace: FIFO of commits (commit = the writer's store of
+    write_cursor with a non-zero value) against the reader's deliveries."""
+    head = case.lines[0].split()
+    n = int(head[1])
+    scripts = []
+    for ln in case.lines[1:]:
+        w = ln.split()
+        if w and w[0] == "writer":
+            scripts.append([tuple(int(x) for x in m.split(":")) for m in w[1:]])
+    if not scripts:
+        # degenerate script (e.g. produced by the shrinker): the driver refuses it, nothing to judge
+        return None if [ln for ln in lines if ln.strip()] == ["F badcase"] else "no writer script but output %r" % lines[:3]
+    idx = {}               # writer tid -> index of its current message
+    committed = []         # dict(tid, nb, tag, line, need)
+    delivered = []
+    consumed = 0
+    cur = {}               # reader's pending triple
+    pend_at_load = None
+    reader_exit = False
+    for ln in lines:
+        w = ln.split()
+        if not w:
+            continue
+        if w[0] in ("DEADLOCK", "LIVELOCK"):
+            return "scheduler reported %s (reader / writers do not terminate)" % ln
+        if w[0] == "REJECT":
+            continue
+        if w[0] == "E":
+            tid, op, cell = int(w[1]), w[2], w[3]
+            val = int(w[5])
+            if tid >= 1 and op == "store" and cell == "wcur" and val != 0:
+                sc = scripts[tid - 1] if tid - 1 < len(scripts) else []
+                i = idx.get(tid, 0)
+                if i >= len(sc):
+                    return "writer %d commits although its script is exhausted" % tid
+                nb, tag = sc[i]
+                need = need_of(nb)
+                line = val - need
+                if line < 0 or val > n - 1:
+                    return "commit moves write_cursor to %d for a %d-line message in a ring of %d lines" % (val, need, n)
+                for m in committed[consumed:]:
+                    if line < m["line"] + m["need"] and m["line"] < val:
+                        return ("writer %d committed lines [%d,%d) which overlap the committed unread message at lines [%d,%d)"
+                                % (tid, line, val, m["line"], m["line"] + m["need"]))
+                committed.append({"tid": tid, "nb": nb, "tag": tag, "line": line, "need": need})
+            elif tid == 0 and op == "load" and cell == "wcur":
+                pend_at_load = len(committed) - len(delivered)
+            elif tid == 0 and op == "store" and cell == "rcur" and val != 0:
+                consumed += 1
+                if consumed > len(delivered):
+                    return "reader consumed a message it was never given"
+        elif w[0] == "R":
+            tid, k = int(w[1]), w[2]
+            v = int(w[3]) if len(w) > 3 else 0
+            if tid >= 1:
+                if k == "sent":
+                    mine = [m for m in committed if m["tid"] == tid]
+                    if not mine or "off" in mine[-1]:
+                        return "writer %d reports a message sent without a commit store" % tid
+                    mine[-1]["off"] = v
+                    if v != CL * mine[-1]["line"] + HDR:
+                        return "writer %d: payload offset %d but the commit covered lines from %d" % (tid, v, mine[-1]["line"])
+                    idx[tid] = idx.get(tid, 0) + 1
+                elif k == "drop":
+                    idx[tid] = idx.get(tid, 0) + 1
+            else:
+                if k in ("glen", "goff", "gtag"):
+                    cur[k] = v
+                    if k == "gtag":
+                        d = (cur.get("glen"), cur.get("goff"), v)
+                        cur = {}
+                        pos = len(delivered)
+                        if pos >= len(committed):
+                            return "reader was given a message (%d bytes at offset %d, tag %d) although nothing committed is pending" % d
+                        m = committed[pos]
+                        if d[2] < 0:
+                            return "reader was given %d bytes at offset %d whose bytes are not those of any committed message (torn / stale payload)" % (d[0], d[1])
+                        if d[0] != m["nb"] or d[2] != m["tag"] or d[1] != CL * m["line"] + HDR:
+                            return ("delivery %d is (%d bytes, tag %d, offset %d); commit order says (%d bytes, tag %d, offset %d)"
+                                    % (pos, d[0], d[2], d[1], m["nb"], m["tag"], CL * m["line"] + HDR))
+                        delivered.append(d)
+                elif k in ("idle", "rdone"):
+                    if pend_at_load is not None and pend_at_load > 0:
+                        return ("fetch reported nothing although %d committed message(s) were pending when it loaded write_cursor"
+                                % pend_at_load)
+                    if k == "rdone":
+                        reader_exit = True
+    if not reader_exit:
+        return "reader did not finish"
+    if len(delivered) != len(committed):
+        return "%d messages committed, %d delivered after the writers stopped" % (len(committed), len(delivered))
+    f = [ln for ln in lines if ln.startswith("F ")]
+    m = re.match(r"F got=(\d+) bad=(\d+)", f[-1]) if f else None
+    if not m:
+        return "no summary line"
+    if int(m.group(1)) != len(delivered) or int(m.group(2)) != 0:
+        return "summary %r disagrees with the trace (%d deliveries)" % (f[-1], len(delivered))
     return None
 
 
